@@ -222,10 +222,27 @@ fn present_out(data: &[u8]) -> String {
         None => "none".into(),
         Some(pe) => {
             let ds = pe.data_start();
+            let mut backwards_differs = false;
             let gs: Vec<String> = pe
                 .into_iter()
-                .map(|a| format!("{}({})", hex(a.name().as_bytes()), a.iter().map(|x| hex(x.as_bytes())).collect::<Vec<_>>().join(";")))
+                .map(|a| {
+                    // the arguments walked backwards, and from both ends alternately, are the same arguments
+                    let fwd: Vec<&str> = a.iter().collect();
+                    let mut bwd: Vec<&str> = a.iter().rev().collect();
+                    bwd.reverse();
+                    let mut it = a.iter();
+                    let (mut f, mut b) = (Vec::new(), Vec::new());
+                    loop {
+                        match it.next_back() { Some(x) => b.push(x), None => break }
+                        match it.next() { Some(x) => f.push(x), None => break }
+                    }
+                    b.reverse();
+                    f.extend(b);
+                    if bwd != fwd || f != fwd { backwards_differs = true; }
+                    format!("{}({})", hex(a.name().as_bytes()), fwd.iter().map(|x| hex(x.as_bytes())).collect::<Vec<_>>().join(";"))
+                })
                 .collect();
+            if backwards_differs { return format!("BACKWARDS-DIFFERS ds={ds} {}", list(gs)); }
             format!("ds={ds} {}", list(gs))
         }
     }
@@ -320,6 +337,9 @@ impl Group for Present {
         if out == "panic" {
             return Some((format!("panic:{line}"), "PresentExtensions::new panicked".into()));
         }
+        if out.starts_with("BACKWARDS-DIFFERS") {
+            return Some((format!("args:{line}"), format!("the arguments of an extension differ when walked backwards or from both ends: {out}")));
+        }
         let arg = line.split(' ').nth(1).unwrap();
         let data = unhex(arg.split('#').next().unwrap()).unwrap();
         // data_start (when it parses) is the first byte after the first LF and inside the buffer
@@ -365,6 +385,10 @@ impl Group for Present {
 /// order of execution at request time, through a real server
 pub struct Trace;
 impl Group for Trace {
+    // a real server / real sockets with read timeouts: a failure counts if it shows again when the same case is re-run
+    fn timing_sensitive(&self) -> bool {
+        true
+    }
     fn name(&self) -> &'static str {
         "c16.trace"
     }
